@@ -80,6 +80,19 @@ class CsvDataFile():
         return self.data
 
 
+def ends_with_closing_quote(t, escapechar):
+    """True when t ends with a quote that is not escaped.
+
+    The escape character is escaped too: a final quote closes the field when
+    it follows an even number of escape characters (none, or escaped escape
+    characters), and is part of the text when it follows an odd number.
+    """
+    if len(t) == 0 or t[-1] != '"':
+        return False
+    body = t[:-1]
+    return (len(body) - len(body.rstrip(escapechar))) % 2 == 0
+
+
 def merge_escape_parts(parts, separator, escapechar):
     try:
         merged_parts = []
@@ -92,9 +105,9 @@ def merge_escape_parts(parts, separator, escapechar):
                     agg.append('"')
                     merged_parts.append(separator.join(agg))
                     agg = None
-            elif len(t) > 0 and t[0] == '"' and t[-1] == '"' and t[-2] != escapechar and agg is None:
+            elif len(t) > 0 and t[0] == '"' and ends_with_closing_quote(t, escapechar) and agg is None:
                 merged_parts.append(t)
-            elif len(t) > 0 and t[-1] == '"' and t[-2] != escapechar and agg is not None:
+            elif ends_with_closing_quote(t, escapechar) and agg is not None:
                 agg.append(t)
                 merged_parts.append(separator.join(agg))
                 agg = None
